@@ -190,13 +190,12 @@ func c09kBuild(t *testing.T, rec *kit.Rec, hi int, rng *kit.RNG) (*c09kBase, err
 	c.Prune = b.pruneArg
 	// journal run on a copy: how many mutations does the prune issue?
 	work := filepath.Join(dir, "journalrun")
-	if err := vMkdirs(work); err != nil {
+	if err := os.MkdirAll(filepath.Join(work, "cache"), 0o755); err != nil {
 		t.Fatal(err)
 	}
 	if err := vCopyDir(filepath.Join(dir, "repo"), filepath.Join(work, "repo")); err != nil {
-		return nil, err
+		return nil, fmt.Errorf("copying the repository: %w", err)
 	}
-	_ = vMkdirs(work, "cache")
 	jf := filepath.Join(work, "journal.txt")
 	r, err := c09kProc(rec, work).Run(work, []string{"RESTIC_VERIF_JOURNAL=" + jf}, b.pruneArg...)
 	if err != nil || r.Exit != 0 {
